@@ -124,6 +124,10 @@ def read_case(req, shp, shx, ops, fault=None, sched=()):
             out += [2, o[1]]
         elif o[0] == "count":
             out.append(3)
+        elif o[0] == "skiptake":
+            out += [5, o[1], o[2]]
+        elif o[0] == "readall":
+            out.append(6)
         else:
             out.append(4)
     return out
@@ -164,6 +168,23 @@ def parse_read(r, ops):
         elif o[0] == "count":
             t = c.next()
             outs.append({"count": c.next() if t == 0 else ("err",) + tuple(c.err())})
+        elif o[0] == "skiptake":
+            n = c.next()
+            outs.append({"items": [_item(c) for _ in range(n)]})
+        elif o[0] == "readall":
+            t = c.next()
+            if t == 0:
+                n = c.next()
+                vals = []
+                for _ in range(n):
+                    start = c.i
+                    shapes.parse_shape(c)
+                    vals.append(c.v[start:c.i])
+                outs.append({"all": ("ok", vals)})
+            elif t == 1:
+                outs.append({"all": ("err",) + tuple(c.err())})
+            else:
+                outs.append({"all": ("panic",)})
         else:
             t = c.next()
             outs.append({"hint": None if t == 0 else (c.next() if t == 1 else (c.next(), c.next()))})
